@@ -117,7 +117,9 @@ class Gen:
         rng = self.rng
         h = self.fresh("e")
         if rng.random() < 0.25:
-            uop = rng.choice(["neg", "abs", "neg", "abs", "log", "log10"] if self.allow_log else ["neg", "abs"])
+            # (logarithms only as the outermost operation: their last-bit differences between libm and numpy must not
+            # be amplified by a subtraction further up, comparisons are made in ulps)
+            uop = rng.choice(["neg", "abs", "neg", "abs", "log", "log10"] if self.allow_log and depth == 0 else ["neg", "abs"])
             if uop in ("log", "log10"):
                 x = {"h": self.pick_positive_prior()}  # logarithms of a strictly positive parameter
             else:
